@@ -236,6 +236,9 @@ pub struct RunStats {
   pub locks_seen: u64,
   pub try_locks: u64,
   pub alloc_yields: u64,
+  /// Policy::Park: victims taken off the runnable set, and scheduler steps they sat out in total
+  pub parks: u64,
+  pub parked_steps: u64,
 }
 
 pub struct St {
@@ -494,6 +497,7 @@ impl St {
           if self.park_state[me] == 0 && self.park_yields[me] >= self.park_plan[me].0 && cands.contains(&me) {
             self.park_state[me] = 1;
             self.park_since[me] = step;
+            self.stats.parks += 1;
           }
         }
         // a victim whose time is up is resumed now and keeps the baton for a few decisions
@@ -505,6 +509,7 @@ impl St {
           }
         }
         if let Some(v) = due {
+          self.stats.parked_steps += step.saturating_sub(self.park_since[v]);
           self.park_state[v] = 2;
           self.park_boost = (v, 3);
           v
@@ -521,6 +526,7 @@ impl St {
                 v = *c;
               }
             }
+            self.stats.parked_steps += step.saturating_sub(self.park_since[v]);
             self.park_state[v] = 2;
             self.park_boost = (v, 3);
             v
